@@ -65,7 +65,7 @@ listener of `id` without scope. -/
 theorem createBusListener_spec {s s' : St} {id n} {ok : Bool} (h : createBusListener s id n = .ok (s', ok)) :
     (sf s'.out = sf s.out ∧ s'.b.listeners = s.b.listeners) ∨
     (sf s'.out = sf s.out ++ [⟨id, .createBusListenerReply n s.b.nextCookie, none⟩] ∧
-      s'.b.listeners = AL.insert s.b.nextCookie { conn := id } s.b.listeners) := by
+      s'.b.listeners = AL.insert s.b.nextCookie { conn := id } s.b.listeners ∧ aliveB s id = true) := by
   unfold createBusListener at h
   repeat' ((try simp only [] at h); split at h)
   all_goals (simp only [okH, errH, Except.ok.injEq, Prod.mk.injEq] at h; obtain ⟨h1, h2⟩ := h; subst h1; subst h2)
@@ -78,12 +78,13 @@ theorem createBusListener_spec {s s' : St} {id n} {ok : Bool} (h : createBusList
     have hb' : ((s.setNextCookie (s.b.nextCookie + 1)).send id (.createBusListenerReply n s.b.nextCookie)).2 = true := by
       simpa [St.freshCookie] using hb
     right; simp [hb', St.freshCookie]
+    simpa using send_ok_alive hb'
 
 theorem destroyBusListener_spec {s s' : St} {id n ck} {ok : Bool} (h : destroyBusListener s id n ck = .ok (s', ok)) :
     (sf s'.out = sf s.out ∧ s'.b.listeners = s.b.listeners) ∨
-    (sf s'.out = sf s.out ++ [⟨id, .destroyBusListenerReply n .invalid, none⟩] ∧ s'.b.listeners = s.b.listeners) ∨
+    (sf s'.out = sf s.out ++ [⟨id, .destroyBusListenerReply n .invalid, none⟩] ∧ s'.b.listeners = s.b.listeners ∧ aliveB s id = true) ∨
     (sf s'.out = sf s.out ++ [⟨id, .destroyBusListenerReply n .ok, none⟩] ∧
-      (∃ l, AL.find? ck s.b.listeners = some l ∧ l.conn = id) ∧ LShrink s s' ∧ AL.find? ck s'.b.listeners = none) := by
+      (∃ l, AL.find? ck s.b.listeners = some l ∧ l.conn = id) ∧ LShrink s s' ∧ AL.find? ck s'.b.listeners = none ∧ aliveB s id = true) := by
   unfold destroyBusListener at h
   repeat' ((try simp only [] at h); split at h)
   all_goals (try (simp only [okH, errH, Except.ok.injEq, Prod.mk.injEq] at h))
@@ -91,7 +92,7 @@ theorem destroyBusListener_spec {s s' : St} {id n ck} {ok : Bool} (h : destroyBu
   all_goals (try (obtain ⟨h1, h2⟩ := h; subst h1; subst h2))
   · exact Or.inl ⟨rfl, rfl⟩
   · rcases send_cases s id (.destroyBusListenerReply n .invalid) none with ⟨h1, h2⟩ | ⟨h1, h2⟩
-    · right; left; simp [h1]
+    · right; left; simp [h1, send_ok_alive h1]
     · left; simp [h1]
   · rename_i hb
     have hb' : (s.send id (.destroyBusListenerReply n .ok)).2 = false := by simpa using hb
@@ -99,19 +100,19 @@ theorem destroyBusListener_spec {s s' : St} {id n ck} {ok : Bool} (h : destroyBu
   · rename_i l hl hc hb
     have hb' : (s.send id (.destroyBusListenerReply n .ok)).2 = true := by simpa using hb
     right; right
-    refine ⟨by simp [removeBusListener, hl, hb'], ⟨l, hl, hc⟩, ?_, ?_⟩
+    refine ⟨by simp [removeBusListener, hl, hb'], ⟨l, hl, hc⟩, ?_, ?_, send_ok_alive hb'⟩
     · exact LShrink.trans (LShrink.of_eq (by simp)) (removeBusListener_shrink _ _)
     · simp [removeBusListener, hl]
   · rcases send_cases s id (.destroyBusListenerReply n .invalid) none with ⟨h1, h2⟩ | ⟨h1, h2⟩
-    · right; left; simp [h1]
+    · right; left; simp [h1, send_ok_alive h1]
     · left; simp [h1]
 
 theorem stopBusListener_spec {s s' : St} {id n ck} {ok : Bool} (h : stopBusListener s id n ck = .ok (s', ok)) :
     (sf s'.out = sf s.out ∧ (s'.b.listeners = s.b.listeners ∨ aliveB s id = false)) ∨
-    (∃ r, r ≠ ListenerRes.ok ∧ sf s'.out = sf s.out ++ [⟨id, .stopBusListenerReply n r, none⟩] ∧ s'.b.listeners = s.b.listeners) ∨
+    (∃ r, r ≠ ListenerRes.ok ∧ sf s'.out = sf s.out ++ [⟨id, .stopBusListenerReply n r, none⟩] ∧ s'.b.listeners = s.b.listeners ∧ aliveB s id = true) ∨
     (∃ l, AL.find? ck s.b.listeners = some l ∧ l.conn = id ∧ l.scope.isSome = true ∧
       s'.b.listeners = AL.insert ck { l with scope := none } s.b.listeners ∧
-      sf s'.out = sf s.out ++ [⟨id, .stopBusListenerReply n .ok, none⟩]) := by
+      sf s'.out = sf s.out ++ [⟨id, .stopBusListenerReply n .ok, none⟩] ∧ aliveB s id = true) := by
   unfold stopBusListener at h
   repeat' ((try simp only [] at h); split at h)
   all_goals (try (simp only [okH, errH, Except.ok.injEq, Prod.mk.injEq] at h))
@@ -119,21 +120,21 @@ theorem stopBusListener_spec {s s' : St} {id n ck} {ok : Bool} (h : stopBusListe
   all_goals (try (obtain ⟨h1, h2⟩ := h; subst h1; subst h2))
   · exact Or.inl ⟨rfl, Or.inl rfl⟩
   · rcases send_cases s id (.stopBusListenerReply n .invalid) none with ⟨h1, h2⟩ | ⟨h1, h2⟩
-    · right; left; exact ⟨.invalid, by simp, by simp [h1], by simp⟩
+    · right; left; exact ⟨.invalid, by simp, by simp [h1], by simp, send_ok_alive h1⟩
     · left; simp [h1]
   · rcases send_cases s id (.stopBusListenerReply n .invalid) none with ⟨h1, h2⟩ | ⟨h1, h2⟩
-    · right; left; exact ⟨.invalid, by simp, by simp [h1], by simp⟩
+    · right; left; exact ⟨.invalid, by simp, by simp [h1], by simp, send_ok_alive h1⟩
     · left; simp [h1]
   · rename_i l hl hc hsc
     rcases send_cases (s.setListeners (AL.insert ck { l with scope := none } s.b.listeners)) id (.stopBusListenerReply n .ok) none with ⟨h1, h2⟩ | ⟨h1, h2⟩
     · right; right
-      exact ⟨l, hl, by simpa using hc, hsc, by simp, by simp [h1]⟩
+      exact ⟨l, hl, by simpa using hc, hsc, by simp, by simp [h1], by simpa using send_ok_alive h1⟩
     · left
       refine ⟨by simp [h1], Or.inr ?_⟩
       have := send_fail_dead h1
       simpa [aliveB] using this
   · rcases send_cases s id (.stopBusListenerReply n .notStarted) none with ⟨h1, h2⟩ | ⟨h1, h2⟩
-    · right; left; exact ⟨.notStarted, by simp, by simp [h1], by simp⟩
+    · right; left; exact ⟨.notStarted, by simp, by simp [h1], by simp, send_ok_alive h1⟩
     · left; simp [h1]
 
 theorem sf_of_all {l : List Out} (h : ∀ x ∈ l, x.strict = true) : sf l = l := by
@@ -158,8 +159,8 @@ theorem sendAll_alive : ∀ (l : List Rsp) (s : St) (id : ConnId), aliveB s id =
 scope includes what exists, by the tagged created-events and the marker, in this order and nothing else. -/
 theorem startBusListener_spec {s s' : St} {id n ck sc} {ok : Bool} (h : startBusListener s id n ck sc = .ok (s', ok)) :
     (sf s'.out = sf s.out ∧ (s'.b.listeners = s.b.listeners ∨ aliveB s id = false)) ∨
-    (∃ r, r ≠ ListenerRes.ok ∧ sf s'.out = sf s.out ++ [⟨id, .startBusListenerReply n r, none⟩] ∧ s'.b.listeners = s.b.listeners) ∨
-    (∃ l, AL.find? ck s.b.listeners = some l ∧ l.conn = id ∧ l.scope = none ∧
+    (∃ r, r ≠ ListenerRes.ok ∧ sf s'.out = sf s.out ++ [⟨id, .startBusListenerReply n r, none⟩] ∧ s'.b.listeners = s.b.listeners ∧ aliveB s id = true) ∨
+    (∃ l, AL.find? ck s.b.listeners = some l ∧ l.conn = id ∧ l.scope = none ∧ aliveB s id = true ∧
       s'.b.listeners = AL.insert ck { l with scope := some sc } s.b.listeners ∧
       ∃ cur : List Rsp, (∀ m ∈ cur, ∃ e, m = .emitBusEvent (some ck) e) ∧
         sf s'.out = sf s.out ++ ⟨id, .startBusListenerReply n .ok, none⟩ ::
@@ -172,13 +173,13 @@ theorem startBusListener_spec {s s' : St} {id n ck sc} {ok : Bool} (h : startBus
   all_goals (try (obtain ⟨h1, h2⟩ := h; subst h1; subst h2))
   · exact Or.inl ⟨rfl, Or.inl rfl⟩
   · rcases send_cases s id (.startBusListenerReply n .invalid) none with ⟨h1, h2⟩ | ⟨h1, h2⟩
-    · right; left; exact ⟨.invalid, by simp, by simp [h1], by simp⟩
+    · right; left; exact ⟨.invalid, by simp, by simp [h1], by simp, send_ok_alive h1⟩
     · left; simp [h1]
   · rcases send_cases s id (.startBusListenerReply n .invalid) none with ⟨h1, h2⟩ | ⟨h1, h2⟩
-    · right; left; exact ⟨.invalid, by simp, by simp [h1], by simp⟩
+    · right; left; exact ⟨.invalid, by simp, by simp [h1], by simp, send_ok_alive h1⟩
     · left; simp [h1]
   · rcases send_cases s id (.startBusListenerReply n .alreadyStarted) none with ⟨h1, h2⟩ | ⟨h1, h2⟩
-    · right; left; exact ⟨.alreadyStarted, by simp, by simp [h1], by simp⟩
+    · right; left; exact ⟨.alreadyStarted, by simp, by simp [h1], by simp, send_ok_alive h1⟩
     · left; simp [h1]
   · -- the reply could not be sent
     rename_i l hl hc hsc hb
@@ -193,7 +194,7 @@ theorem startBusListener_spec {s s' : St} {id n ck sc} {ok : Bool} (h : startBus
     have hb' : (St.send (s.setListeners (AL.insert ck { l with scope := some sc } s.b.listeners)) id (.startBusListenerReply n .ok)).2 = true := by
       simpa using hb
     right; right
-    refine ⟨l, hl, by simpa using hc, by simpa using hsc, by simp, [], by simp, ?_⟩
+    refine ⟨l, hl, by simpa using hc, by simpa using hsc, by simpa using send_ok_alive hb', by simp, [], by simp, ?_⟩
     subst hnew; simp [hb']
   · -- the reply, the created-events, the marker
     rename_i l hl hc hsc hb hnew _ _ so ss hso hss
@@ -206,7 +207,7 @@ theorem startBusListener_spec {s s' : St} {id n ck sc} {ok : Bool} (h : startBus
     rw [← hS1] at ha ⊢
     obtain ⟨i1, i2⟩ := sendAll_alive (currentObjMsgs S1.b { l with scope := some sc } ck so ++
         currentSvcMsgs S1.b { l with scope := some sc } ck ss ++ [.busListenerCurrentFinished ck]) S1 id ha
-    refine ⟨l, hl, by simpa using hc, by simpa using hsc, by rw [i2, hS1]; simp,
+    refine ⟨l, hl, by simpa using hc, by simpa using hsc, by simpa using send_ok_alive hb', by rw [i2, hS1]; simp,
       currentObjMsgs S1.b { l with scope := some sc } ck so ++ currentSvcMsgs S1.b { l with scope := some sc } ck ss, ?_, ?_⟩
     · intro m hm
       simp only [List.mem_append] at hm
@@ -237,12 +238,12 @@ theorem LSub.insert {id : ConnId} {s s' : St} {ck : Cookie} {l : Listener} (h : 
   · exact Or.inr hl
 
 theorem createBusListener_lsub {s s' : St} {id n} {ok : Bool} (h : createBusListener s id n = .ok (s', ok)) : LSub id s s' := by
-  rcases createBusListener_spec h with ⟨_, h2⟩ | ⟨_, h2⟩
+  rcases createBusListener_spec h with ⟨_, h2⟩ | ⟨_, h2, _⟩
   · exact LSub.of_eq h2
   · exact LSub.insert h2 rfl
 
 theorem destroyBusListener_lsub {s s' : St} {id n ck} {ok : Bool} (h : destroyBusListener s id n ck = .ok (s', ok)) : LSub id s s' := by
-  rcases destroyBusListener_spec h with ⟨_, h2⟩ | ⟨_, h2⟩ | ⟨_, _, h2, _⟩
+  rcases destroyBusListener_spec h with ⟨_, h2⟩ | ⟨_, h2, _⟩ | ⟨_, _, h2, _⟩
   · exact LSub.of_eq h2
   · exact LSub.of_eq h2
   · exact h2.toSub
